@@ -5,7 +5,8 @@ NOT_APPLICABLE = {'C01': 'limit statement over arbitrarily long random chains (e
 CLAIMS = {'C06': {'text': "Every random draw in src/quansino is shown (who-may-call + provenance) to come from the one generator built in Driver.__init__ from the user's seed, and a finite case analysis "
                  '(seed None / 0 / k>0) shows the given seed reaches the bit generator unchanged; global/fresh generators, clock, pid and set-order dependence are excluded package-wide. Universal '
                  "over seeds and global-generator states because it is a fact about the code's shape, not a sample of runs. G4 also treats set algebra on key views and materialised sets as "
-                 'hash-ordered iterables.',
+                 'hash-ordered iterables. G5: no mutable object created at module or class level is handed out as per-object state (shared default operations, masks, scratch lists): two simulations '
+                 'built in one process share nothing but code and constants.',
          'note': "Trusted: numpy Generator(PCG64(seed)) is deterministic; ASE/numpy arithmetic is reproducible. Not decided: 'different seeds give different trajectories'. Assertions in the analysed "
                  'code are taken to hold (they are dropped from the normal form).',
          'technique': 'static who-may-call over resolved imports + receiver provenance dataflow + finite case analysis of the seed path'},
@@ -14,7 +15,8 @@ CLAIMS = {'C06': {'text': "Every random draw in src/quansino is shown (who-may-c
                  "driver setting emitted (S4), emitted value inverts the constructor's arithmetic (S5, sympy normal form), and an import-order simulation for every public module as first import (S6; "
                  "all ordered pairs in the thorough tier). S4 also rejects tunables written only under a condition (`if value != DEFAULT`) unless the class's own constructor chain provably leaves "
                  "the attribute at that constant. S5 live-copy: a serialised attribute must be the one the object's behaviour reads (a second, construction-time copy of a public tunable is "
-                 'reported). S5 includes driver settings held in the context: the serialised value must read the slot the setting lives in.',
+                 "reported). S5 includes driver settings held in the context: the serialised value must read the slot the setting lives in. S7: the drivers' from_dict works on a deep copy of its "
+                 'argument (the rebuilt simulation owns its Atoms object and context values).',
          'note': "Trusted: ASE's JSON encoder round-trips ndarray/Atoms/Cell; Python import semantics as modelled (module-level statements, partially initialised modules, submodule fallback). "
                  'Callables and user-registered classes are outside. ForceBias/AdaptiveForceBias serialization gaps are listed known findings. Assertions in the analysed code are taken to hold (they '
                  'are dropped from the normal form).',
@@ -24,7 +26,8 @@ CLAIMS = {'C06': {'text': "Every random draw in src/quansino is shown (who-may-c
                  'before the first step, from_dict restores generator state in place after construction plus attributes, context and move table, and every class name that can occur in the file '
                  'resolves. Failure of any one makes every restart of the affected configuration wrong or impossible. Rule T6: the restart writer keeps dictionary insertion order (ASE write_json, or '
                  "json.dump(s) with ASE's encoder and no key sorting by default) — the move table is rebuilt in file order and scheduled by position. T7: per-move state that from_dict re-derives "
-                 "(unique_labels) is produced at run time only by the function from_dict uses. T4 also requires that the value written under a context slot's key reads that slot and nothing else.",
+                 "(unique_labels) is produced at run time only by the function from_dict uses. T4 also requires that the value written under a context slot's key reads that slot and nothing else. "
+                 "T8: on the abstract heap, after every trial the calculator's cached results belong to the current configuration (a restarted run starts from an empty cache).",
          'note': 'Not decided: step-for-step equality of the resumed trajectory (behavioural), JSON number round trip (ASE encoder, trusted; its use of obj.todict() is validated against the '
                  'installed ASE source on every run). ForceBias/AdaptiveForceBias restart is a listed known finding. Assertions in the analysed code are taken to hold (they are dropped from the '
                  'normal form).',
@@ -41,7 +44,8 @@ CLAIMS = {'C06': {'text': "Every random draw in src/quansino is shown (who-may-c
          'technique': 'statement CFG path enumeration + dominance + bounded exhaustive predicate equivalence (checker-owned evaluator)'},
  'C16': {'text': 'Typestate analysis of the file-operation sequence of every observer call (all CFG paths; ASE writers summarised and validated against the installed source): flush after the last '
                  'write, one newline-terminated write per log row/header, append-only trajectory, restart rewrite from offset 0 with truncation, and an exhaustive enumeration of crash points (every '
-                 'prefix of every op sequence) mapped to an abstract file state that must be allowed for that file kind.',
+                 "prefix of every op sequence) mapped to an abstract file state that must be allowed for that file kind. W6: an observer's call writes no module- or class-level mutable object (no "
+                 'scratch state shared between loggers).',
          'note': "Granularity is one file operation (a torn single write counts as 'partial'); OS-level durability (fsync) is not claimed by the property. The non-atomic restart rewrite (two crash "
                  'points) is a listed known finding. Assertions in the analysed code are taken to hold (they are dropped from the normal form).',
          'technique': 'typestate over file-operation sequences on CFG paths + exhaustive crash-prefix enumeration'},
@@ -103,7 +107,8 @@ CLAIMS = {'C06': {'text': "Every random draw in src/quansino is shown (who-may-c
                  "check on the particle number the insertion/deletion rule reads: it is only ever advanced by the trial's particle_delta. The kinetic-energy reference of the Hamiltonian test (rule "
                  'H) is decided on the abstract heap: when the integrator starts, the stored K0 is that of the momenta then present, on every path of the trial. Rule E: on the abstract heap the '
                  'energy E_old read by every formula is, at the start of the first trial and after every accepted / rejected / failed trial, the energy of the configuration the next trial starts '
-                 'from (a NaN or stale baseline is reported with the path). Public and static helpers of the criteria are seen through unless they keep state on the criterion.',
+                 'from (a NaN or stale baseline is reported with the path). Public and static helpers of the criteria are seen through unless they keep state on the criterion. Rule W: evaluate() '
+                 'never writes to the context and never changes in place an array that may share storage with a context attribute (views through np.asarray / slices / .T are followed).',
          'note': 'Decides identity over the reals, not floating-point rounding near A = 1. The strain tensor is opaque except that it must vanish for an undeformed cell. For the grand-canonical '
                  'clamp (exponent ≤ 700 before a finite prefactor multiplies it) decision-neutrality assumes the prefactor is a normal double (≥ 1e-300). Unrecognised source expressions end as '
                  'analysis-error, not as a verdict. Assertions in the analysed code are taken to hold (they are dropped from the normal form).',
@@ -124,7 +129,7 @@ CLAIMS = {'C06': {'text': "Every random draw in src/quansino is shown (who-may-c
                  'value-numbered to min+(max−min)·u (so delta ∈ [min,max] with the stated anchor values); fallbacks return reference_variance only for missing committee data; step() adapts delta '
                  'before the inherited step on every path. Update functions are read through caches (derived-attribute resolver) and module constants; a slope cached at construction from '
                  'reference_variance is reported as stale-able. R6: structural sign analysis shows that every scheme returns a non-negative variation coefficient (the update functions are maps of '
-                 '[0, ∞) only).',
+                 '[0, ∞) only). R7: update functions and schemes never change an argument in place (directly or through np.asarray / a view).',
          'note': 'Decided over the reals; floating-point saturation of tanh/exp is not claimed. Assertions in the analysed code are taken to hold (they are dropped from the normal form).',
          'technique': 'sympy normal forms, limits and a structural monotonicity domain + dominance on the CFG + derived-attribute (cache) resolution with freshness obligations'},
  'C14': {'text': "The shipped integrator's loop body is value-numbered with a stateful summary of the Atoms API (positions/momenta as expressions, forces as an uninterpreted function of the current "
@@ -141,7 +146,7 @@ CLAIMS = {'C06': {'text': "Every random draw in src/quansino is shown (who-may-c
                  "draws; Ball/Sphere rows have squared norm r²/s² under sin²+cos²=1 with cosθ ~ U(−1,1), φ over one full period; Translation is U(0,1)³@cell minus the group's centroid; Rotation "
                  "rotates a copy of the group about its centre of mass and returns the difference for the same index set, with angles in the unit of ASE's degree-valued euler_rotate (validated "
                  'against the installed ASE source) over a full period; deformation generators are symmetric by construction with symmetric uniform entries, traceless for Shape, scalar for '
-                 'Isotropic, blended as G∘mask + 𝟙∘(¬mask); the composite is the axis-0 sum over one call per child.',
+                 'Isotropic, blended as G∘mask + 𝟙∘(¬mask); the composite is the axis-0 sum over one call per child. G6: every operation owns its parameters (no shared module-level default mask).',
          'note': "Trusted lemmas: the (cosθ, φ) sampler is uniform on the sphere and symmetric under d→−d; expm of a symmetric matrix is SPD with inverse expm(−T); det expm(T) = exp(tr T); ASE's "
                  "euler_rotate about 'COM' keeps the centre of mass. Not decided: uniformity in distribution, volume preservation to rounding, symmetry under a non-default mask. Assertions in the "
                  'analysed code are taken to hold (they are dropped from the normal form).',
@@ -173,7 +178,8 @@ CLAIMS = {'C06': {'text': "Every random draw in src/quansino is shown (who-may-c
                  'carried by the re-inserted atoms added). search_molecules is decided by finite case analysis of the default-array handling (None / one-element / multi-element array: never '
                  'truth-tested, and the result starts from the supplied data), the inclusive size filter is compared with the reference predicate on a bounded domain, labels come from '
                  'enumerate(connected components) of the neighbour-list connectivity without self-interaction. R2 additionally requires a connectivity matrix that is fresh per call (no cached '
-                 'helper) and accepts the direct graph idiom; the row tracker knows both mask idioms (ones/False, zeros/True).',
+                 'helper) and accepts the direct graph idiom; the row tracker knows both mask idioms (ones/False, zeros/True). R3: search_molecules writes into none of its arguments (the supplied '
+                 'default array in particular); reinsert_atoms only into `atoms`.',
          'note': "Trusted: numpy mask/index scatter semantics, ASE's neighbour list, networkx's connected components. Rules read the normalised form of the two functions; a rewrite outside the "
                  "normaliser's reach ends as analysis-error (exit 2), not as a violation. Assertions in the analysed code are taken to hold (they are dropped from the normal form).",
          'technique': 'normalised form (helper inlining) + flow-sensitive row-scatter tracking (fresh array, complement mask) + finite case analysis + exhaustive evaluation of the size window on a '
